@@ -5,7 +5,7 @@ from vf.explore import Explorer
 from vf.sched import Sched
 
 
-def _one_in_child(run, judge, prefix, bound):
+def _one_in_child(run, judge, prefix, bound, warmup=None):
     """run one execution in a forked child (a fresh copy of the process image: lazily built module state of the library is
     exactly as at the fork) and ship back the choice points and the verdicts"""
     import os
@@ -15,6 +15,8 @@ def _one_in_child(run, judge, prefix, bound):
     if pid == 0:
         os.close(rd)
         try:
+            if warmup is not None:
+                warmup()          # sequential calls made before the threads start (non-initial state of lazily built tables)
             ex = Explorer(run, bound=bound, cache=False)
             ctx, obs = ex.one(prefix)
             results, errors, abort = obs
@@ -33,7 +35,7 @@ def _one_in_child(run, judge, prefix, bound):
     return pickle.loads(data)
 
 
-def explore_calls(acc, calls, files, bound, judge, kind, case, max_exec=50_000, horizon=200_000):
+def explore_calls(acc, calls, files, bound, judge, kind, case, max_exec=50_000, horizon=200_000, warmup=None):
     """calls: list of zero-argument callables (one per thread) returning an observation; files: tuple of path suffixes
     whose frames are scheduling points; judge(observations, errors) -> [(key, desc)].  Every execution runs in its own
     forked child, so the calls are always the FIRST calls of their process image."""
@@ -59,7 +61,7 @@ def explore_calls(acc, calls, files, bound, judge, kind, case, max_exec=50_000, 
             capped = True
             break
         prefix = stack.pop()
-        r = _one_in_child(run, judge, prefix, bound)
+        r = _one_in_child(run, judge, prefix, bound, warmup)
         if "error" in r:
             raise RuntimeError("concurrent-call explorer: " + r["error"])
         n_exec += 1
@@ -86,7 +88,10 @@ def explore_calls(acc, calls, files, bound, judge, kind, case, max_exec=50_000, 
     return R
 
 
-def replay_calls(calls, files, choices, judge, horizon=200_000):
+def replay_calls(calls, files, choices, judge, horizon=200_000, warmup=None):
+    if warmup is not None:
+        warmup()
+
     def want(code):
         return code.co_filename.endswith(files)
 
